@@ -46,6 +46,9 @@ var capMatchers = []pipe.MatcherSpec{
 	{Kind: "dissect", Pattern: `id=%{file}:%{n} %{?skip}=%{rest}`},
 	{Kind: "dissect", Pattern: `key=%{key} `},
 	{Kind: "dissect", Pattern: `KEY=%{k} VAL=%{v}`, IgnoreCase: true},
+	// token names with capitals, with and without -I: the name is not part of what -I folds
+	{Kind: "dissect", Pattern: `KEY=%{Key} VAL=%{vAL}`, IgnoreCase: true},
+	{Kind: "dissect", Pattern: `key=%{Key} val=%{vAL}`},
 	// delimiters whose first byte repeats, on lines that carry one more of that byte just before them (key=aab, key=abbcd):
 	// the leftmost occurrence starts inside a failed partial match
 	{Kind: "dissect", Pattern: `key=%{pre}ab%{post} `, IgnoreCase: true},
@@ -55,7 +58,7 @@ var capMatchers = []pipe.MatcherSpec{
 	{Kind: "none"},
 }
 
-var capExtracts = []string{`{0}`, `{0}`, `{1}|{2}`, `{key}/{val}`, `{@}`, `{src}:{line}:{1}`, `{5}{4}{3}`, `{file}{n}`, `{9}x`, `{1}`, `[{1}|{2}|{3}|{key}|{tail}]`}
+var capExtracts = []string{`{0}`, `{0}`, `{1}|{2}`, `{key}/{val}`, `{Key}/{vAL}|{1}/{2}`, `{@}`, `{src}:{line}:{1}`, `{5}{4}{3}`, `{file}{n}`, `{9}x`, `{1}`, `[{1}|{2}|{3}|{key}|{tail}]`}
 
 var words = []string{"a", "aa", "aab", "b", "bbb", "abcd", "abbcd", "x", "K9", "zed", "ab", "bcd"}
 
